@@ -20,4 +20,4 @@ REQUIRED_CLASSES = {t: ["refusal:missing_argument", "refusal:existing_node", "re
                         "refusal:invalid_swap", "refusal:missing_position"]
                     for t in ("quick", "thorough")}
 run_shard, replay, minimise = make(C11Oracle, quick=(3200, 30), thorough=(6400, 50), profile="refusal",
-                                   refusal_bias=0.25, cfg_kwargs={"allow_stray": True})
+                                   refusal_bias=0.25, cfg_kwargs={"allow_stray": True, "allow_default_feature": True})
